@@ -93,17 +93,57 @@ def r1_staged_publication(repo=None):
     v = single_def(tvar)
     prefix = None
     shape = False
-    if isinstance(v, ast.Call) and pyfront.call_name(v) == "os.path.join" and len(v.args) == 2 and isinstance(v.args[1], ast.BinOp) \
-            and isinstance(v.args[1].op, ast.Add):
+    def two_parts(e):
+        """(prefix expression, name expression) of `P + N`, f"{P}{N}" / f"tmp.{N}" """
+        if isinstance(e, ast.BinOp) and isinstance(e.op, ast.Add):
+            return e.left, e.right
+        if isinstance(e, ast.JoinedStr) and len(e.values) == 2 and isinstance(e.values[1], ast.FormattedValue) and e.values[1].format_spec is None \
+                and e.values[1].conversion == -1:
+            first = e.values[0]
+            if isinstance(first, ast.Constant):
+                return first, e.values[1].value
+            if isinstance(first, ast.FormattedValue) and first.format_spec is None and first.conversion == -1:
+                return first.value, e.values[1].value
+        if isinstance(e, ast.JoinedStr) and len(e.values) > 2 and isinstance(e.values[-1], ast.FormattedValue) and e.values[-1].format_spec is None \
+                and e.values[-1].conversion == -1:
+            # f"tmp{<something>}.{name}": everything in front of the name is the prefix
+            return ast.JoinedStr(values=list(e.values[:-1])), e.values[-1].value
+        return None
+
+    def const_text(e):
+        """the string a prefix expression stands for: a literal, a module constant, a class-level constant (self.X / cls.X / Class.X)"""
+        if isinstance(e, ast.Constant) and isinstance(e.value, str):
+            return e.value
+        d = pyfront.dotted(e) or ""
+        if "." in d and d.count(".") == 1:
+            attr = d.split(".")[1]
+            vals = [b.value for c_ in m.tree.body if isinstance(c_, ast.ClassDef) for b in c_.body if isinstance(b, ast.Assign)
+                    and any(isinstance(t, ast.Name) and t.id == attr for t in b.targets)]
+            if len(vals) == 1 and isinstance(vals[0], ast.Constant) and isinstance(vals[0].value, str):
+                return vals[0].value
+            return None
         try:
-            prefix = cfold.Folder(repo).expr("mirror", v.args[1].left)
+            val = cfold.Folder(repo).expr("mirror", e)
         except AnalysisError:
-            prefix = None
-        shape = isinstance(v.args[0], ast.Name) and v.args[0].id in ddirs and isinstance(v.args[1].right, ast.Name) \
-            and v.args[1].right.id in dnames
+            return None
+        return val if isinstance(val, str) else None
+    parts = None
+    if isinstance(v, ast.Call) and pyfront.call_name(v) == "os.path.join" and len(v.args) == 2:
+        parts = two_parts(v.args[1])
+    if parts is not None:
+        prefix = const_text(parts[0])
+        shape = isinstance(v.args[0], ast.Name) and v.args[0].id in ddirs and isinstance(parts[1], ast.Name) and parts[1].id in dnames
     tdef = [n for n in ast.walk(f) if isinstance(n, ast.Assign) and any(isinstance(t, ast.Name) and t.id == tvar for t in n.targets)]
     if prefix == "tmp." and shape:
         r.ok("%s:%s %s" % (m.rel, tdef[0].lineno, q), "staging path = <destination directory> / ('tmp.' + <destination name>)")
+    elif parts is not None and shape and prefix is None and any(isinstance(x, ast.Call) for x in ast.walk(parts[0])):
+        r.violation(m.rel, q, norm(ast.unparse(tdef[0])) if tdef else "staging path `%s`" % tvar, "the prefix of the staging name is computed at run "
+                    "time (`%s`), so it is not the literal `tmp.` that listings, readers and event filters hide: a partial copy is seen as a "
+                    "data file of the destination" % norm(ast.unparse(parts[0]))[:50], line=tdef[0].lineno if tdef else f.lineno)
+    elif parts is None or prefix is None or not shape:
+        # how the staging name is composed was not followed: that is not evidence of a wrong name
+        raise AnalysisError("%s: the staging path `%s` was not resolved to <destination directory> / (<constant prefix> + <destination name>)" % (
+            q, norm(ast.unparse(tdef[0]))[:80] if tdef else tvar))
     else:
         r.violation(m.rel, q, norm(ast.unparse(tdef[0])) if tdef else "staging path `%s`" % tvar, "the staging name is not the destination "
                     "name with the literal prefix `tmp.`: readers/listings of the destination could see the partial copy",
